@@ -35,13 +35,17 @@ CONSTANTS N,          \* number of headers of the main chain (ids 1..N, number =
           MaxCount,   \* reservation sizes 1..MaxCount
           MaxFaults,  \* bound on fault actions (>= 99: unbounded)
           W,          \* number of slots of the result window (len(resultCache))
+          MemCap,     \* blockCacheMemory in size units (0 = no memory cap): the window shrinks to ceil(MemCap / size of the last result)
+          BigBody,    \* body ids whose blocks are large (size BigK units; every other block has size 1)
+          BigK,
           MaxProc,    \* maxResultsProcess: Results hands out at most this many items per call and keeps the rest
           MaxOps,     \* behaviour length in generation mode
           GenMode,    \* "none" (design checking) | "leaf" (behaviour generation)
           Alphabet,   \* "full" | "small"
           Noops       \* TRUE: calls that the code answers without doing anything are part of the alphabet
 
-VARIABLES base,       \* origin of the current sync session (number, relative to the first session's origin)
+VARIABLES lastsz,     \* q.resultSize: with blockCacheSizeWeight scaled to 1 the size of the block handed out last (0 = none yet)
+          base,       \* origin of the current sync session (number, relative to the first session's origin)
           sess,       \* number of sessions started so far
           head,       \* q.headerHead: id of the last header Schedule accepted (0 = none yet)
           acc,        \* OBSERVABLE: the headers Schedule accepted for download
@@ -57,7 +61,7 @@ VARIABLES base,       \* origin of the current sync session (number, relative to
           delivered,  \* OBSERVABLE: sequence of [h, b] handed out by Results
           old,        \* generation only: peer -> the request it most recently lost (for late deliveries)
           hist        \* generation only
-vars == <<base, sess, head, acc, pool, queue, pend, done, slot, offset, lacks, faults, broken, delivered, old, hist>>
+vars == <<lastsz, base, sess, head, acc, pool, queue, pend, done, slot, offset, lacks, faults, broken, delivered, old, hist>>
 
 Hdrs == 1..(N + FL)
 Num(h) == IF h <= N THEN h ELSE ForkFrom + (h - N - 1)
@@ -72,9 +76,9 @@ NilSlot == [a |-> FALSE, p |-> 0, b |-> -1, hd |-> 0]
 Gen == GenMode # "none"
 
 \* (delivered is the observable of the CURRENT session: every clause is stated per session)
-InitRec == [op |-> "Init", n |-> N, fl |-> FL, forkfrom |-> ForkFrom, body |-> Body, w |-> W, peers |-> Peers, maxc |-> MaxCount, maxp |-> MaxProc]
+InitRec == [op |-> "Init", memcap |-> MemCap, big |-> BigBody, n |-> N, fl |-> FL, forkfrom |-> ForkFrom, body |-> Body, w |-> W, peers |-> Peers, maxc |-> MaxCount, maxp |-> MaxProc]
 
-Init == /\ base = 0 /\ sess = 1 /\ head = 0 /\ acc = {} /\ pool = {} /\ queue = [h \in Hdrs |-> 0] /\ pend = [p \in Peers |-> <<>>] /\ done = {}
+Init == /\ lastsz = 0 /\ base = 0 /\ sess = 1 /\ head = 0 /\ acc = {} /\ pool = {} /\ queue = [h \in Hdrs |-> 0] /\ pend = [p \in Peers |-> <<>>] /\ done = {}
         /\ slot = [n \in Nums |-> NilSlot] /\ offset = 0 /\ lacks = [p \in Peers |-> {}] /\ faults = 0
         /\ broken = FALSE /\ delivered = <<>> /\ old = [p \in Peers |-> <<>>]
         /\ hist = IF Gen THEN <<InitRec>> ELSE <<>>
@@ -102,7 +106,7 @@ Schedule(v, chunk, from) ==
    /\ Tick([op |-> "Schedule", v |-> v, chunk |-> chunk, from |-> from])
    /\ LET r == Sch([head |-> head, pool |-> pool, queue |-> queue, acc |-> acc], chunk, 1, from) IN
       head' = r.head /\ pool' = r.pool /\ queue' = r.queue /\ acc' = r.acc
-   /\ UNCHANGED <<base, sess, pend, done, slot, offset, lacks, faults, broken, delivered, old>>
+   /\ UNCHANGED <<lastsz, base, sess, pend, done, slot, offset, lacks, faults, broken, delivered, old>>
 
 \* what callers offer.  Honest: the next k headers of the main chain.  Otherwise: such a chunk with one header that does not
 \* link (a fork header of that number) or has the wrong number (the previous header again); a competing fork that starts
@@ -130,12 +134,15 @@ MinQ(q) == CHOOSE h \in Hdrs : q[h] > 0 /\ \A g \in Hdrs : q[g] > 0 => (Num(h) <
 InWindow(h) == Num(h) - offset >= 1 /\ Num(h) - offset <= W
 
 \* resultSlots: limit - finished - pending (parametrised: the loop model evaluates it on intermediate states of a round)
+\* the item limit of the window, lowered by the memory cap once large blocks have been seen
+SizeOf(h) == IF Body[h] \in BigBody THEN BigK ELSE 1
+Limit == IF MemCap > 0 /\ W * lastsz > MemCap THEN (MemCap + lastsz - 1) \div lastsz ELSE W
 RECURSIVE FinishedOf(_, _, _)
-FinishedOf(sl, dn, i) == IF i > W \/ offset + i > NMax THEN 0
+FinishedOf(sl, dn, i) == IF i > Limit \/ offset + i > NMax THEN 0
                          ELSE IF ~sl[offset + i].a THEN 0
                          ELSE (IF sl[offset + i].hd \in dn THEN 1 ELSE 0) + FinishedOf(sl, dn, i + 1)
-PendWinOf(pd) == Cardinality({ x \in UNION { { <<p, n>> : n \in DOMAIN pd[p] } : p \in Peers } : Num(pd[x[1]][x[2]]) <= offset + W })
-SpaceOf(sl, dn, pd) == W - FinishedOf(sl, dn, 1) - PendWinOf(pd)
+PendWinOf(pd) == Cardinality({ x \in UNION { { <<p, n>> : n \in DOMAIN pd[p] } : p \in Peers } : Num(pd[x[1]][x[2]]) <= offset + Limit })
+SpaceOf(sl, dn, pd) == Limit - FinishedOf(sl, dn, 1) - PendWinOf(pd)
 Space == SpaceOf(slot, done, pend)
 
 RECURSIVE Go(_, _, _)
@@ -166,7 +173,7 @@ Reserve(p, cnt) ==
            /\ slot' = r.slot /\ done' = r.done /\ pool' = r.pool
            /\ pend' = IF r.err \/ r.send = <<>> THEN pend ELSE [pend EXCEPT ![p] = r.send]
            /\ broken' = (broken \/ r.err)
-   /\ UNCHANGED <<base, sess, head, acc, offset, lacks, faults, delivered, old>>
+   /\ UNCHANGED <<lastsz, base, sess, head, acc, offset, lacks, faults, delivered, old>>
 
 \* ---------------------------------------------------------------- Deliver
 BodyOf(x) == IF x >= 1 THEN Body[x] ELSE IF x = -1 THEN 0 ELSE -7
@@ -220,7 +227,7 @@ Deliver(p, v) ==
    /\ Tick([op |-> "Deliver", p |-> p, v |-> v[1], items |-> v[2]])
    /\ IF IsFault(p, v) THEN Charge ELSE faults' = faults
    /\ DeliverCore(p, v[2])
-   /\ UNCHANGED <<base, sess, head, acc, offset, broken, delivered, old>>
+   /\ UNCHANGED <<lastsz, base, sess, head, acc, offset, broken, delivered, old>>
 
 \* ---------------------------------------------------------------- cancel / expire / revoke
 GiveBack(p, name) ==
@@ -231,7 +238,7 @@ GiveBack(p, name) ==
    /\ queue' = PushAll(queue, pend[p])
    /\ pend' = [pend EXCEPT ![p] = <<>>]
    /\ old' = IF Gen /\ pend[p] # <<>> THEN [old EXCEPT ![p] = pend[p]] ELSE old
-   /\ UNCHANGED <<base, sess, head, acc, pool, done, slot, offset, lacks, broken, delivered>>
+   /\ UNCHANGED <<lastsz, base, sess, head, acc, pool, done, slot, offset, lacks, broken, delivered>>
 
 Cancel(p) == GiveBack(p, "Cancel")
 Expire(p) == GiveBack(p, "Expire")
@@ -251,6 +258,7 @@ Results ==
    /\ done' = done \ { slot[offset + i].hd : i \in 1..n }
    /\ slot' = [m \in Nums |-> IF m \in (offset + 1)..(offset + n) THEN NilSlot ELSE slot[m]]
    /\ offset' = offset + n
+   /\ lastsz' = IF n = 0 THEN lastsz ELSE SizeOf(slot[offset + n].hd)
    /\ UNCHANGED <<base, sess, head, acc, pool, queue, pend, lacks, faults, broken, old>>
 
 \* ---------------------------------------------------------------- sessions
@@ -266,7 +274,7 @@ Reset(o) ==
    /\ pend' = [p \in Peers |-> <<>>] /\ done' = {} /\ slot' = [n \in Nums |-> NilSlot] /\ offset' = o
    /\ delivered' = <<>>
    /\ old' = IF Gen THEN [p \in Peers |-> IF pend[p] # <<>> THEN pend[p] ELSE old[p]] ELSE old
-   /\ UNCHANGED <<lacks, faults, broken>>
+   /\ UNCHANGED <<lastsz, lacks, faults, broken>>          \* (Reset keeps the size estimate)
 
 \* ---------------------------------------------------------------- next-state relations
 NextFull ==
@@ -316,6 +324,13 @@ ReadyMeansDone == \A n \in Nums : n > offset => ((slot[n].a /\ slot[n].p <= 0) <
 PoolIsOpenWork == pool = { h \in acc : h \notin done /\ Num(h) > offset }
 
 AllDelivered == ((base + 1)..N) \subseteq acc /\ Len(delivered) = N - base
+
+\* goal-directed generation (see TxPool.tla): the memory cap has shrunk the window, nothing is in flight, the head block of
+\* the window is waiting in the task queue and at least as many completed results as the shrunken window holds lie behind it
+MemGoal == /\ Limit < W /\ \A p \in Peers : pend[p] = <<>>
+           /\ offset + 1 <= NMax /\ slot[offset + 1].a /\ slot[offset + 1].hd \notin done /\ queue[slot[offset + 1].hd] > 0
+           /\ Cardinality({ n \in Nums : n > offset + 1 /\ slot[n].a /\ slot[n].hd \in done }) >= Limit
+NoMemGoal == ~MemGoal \/ Cex("goal:memcap")
 
 \* ---------------------------------------------------------------- liveness
 \* "the full range completes as long as some peer eventually answers honestly": every request is eventually answered or
